@@ -380,7 +380,10 @@ func TestVerifC07Controller(t *testing.T) {
 			qt := c07Qtype(r, reqRules)
 			dst := r.Range(1, 2)
 			isResp := r.Chance(0.03)
-			noq := r.Chance(0.03)
+			noq := r.Chance(0.04)
+			if noq {
+				name, qt = "", 0 // what the controller uses for a message without question
+			}
 
 			// upstream behaviour table
 			cur := &c07Cur{table: map[string]c07Ans{}}
@@ -409,7 +412,7 @@ func TestVerifC07Controller(t *testing.T) {
 
 			// seed the response cache through the production insert path
 			var seedToks []string
-			if r.Chance(0.45) && !noq {
+			if r.Chance(0.45) {
 				ns := r.Range(1, 3)
 				for i := 0; i < ns; i++ {
 					sel := []string{"s", "s", "s", "s", "o", "t"}[r.Intn(6)]
